@@ -108,7 +108,10 @@ def assigns_to(fn: ast.AST, name: str) -> List[ast.AST]:
     for n in walk_no_nested(fn):
         if isinstance(n, ast.Assign):
             for t in n.targets:
-                for x in ast.walk(t):
+                elts = t.elts if isinstance(t, (ast.Tuple, ast.List)) else [t]
+                for x in elts:
+                    if isinstance(x, ast.Starred):
+                        x = x.value
                     if isinstance(x, ast.Name) and x.id == name:
                         out.append(n)
         elif isinstance(n, (ast.AnnAssign, ast.AugAssign)) and isinstance(n.target, ast.Name) and n.target.id == name:
